@@ -2,11 +2,16 @@
 (***************************************************************************)
 (* Trace validation for C18: every case is one execution of the real       *)
 (* TAPParser (events recorded after every line and at end of stream) and   *)
-(* optionally of TestRunTAP (whole-test classification).  The case is      *)
-(* accepted iff the operational specification TAP!RunAll produces the same *)
+(* optionally of TestRunTAP / `meson test` (whole-test classification, one *)
+(* per exit status of c.vs).  The case is accepted iff, for one value of   *)
+(* the representability parameter (TAP!Lims: the implementation either     *)
+(* reads numerals of any length or reports those it cannot convert as an   *)
+(* error), the operational specification TAP!RunAllL produces the same     *)
 (* per-line events (error events compared by presence, class erased) and   *)
-(* the same verdict.  One initial state per case; the judgement is made in *)
-(* the single step so that all TLC workers share the batch.                *)
+(* the same verdict for every recorded exit status.  An execution in which *)
+(* the parser raised is never accepted (clause NoRaise).  One initial      *)
+(* state per case; the judgement is made in the single step so that all    *)
+(* TLC workers share the batch.                                             *)
 (***************************************************************************)
 EXTENDS TAP, TLC, Json, IOUtils
 
@@ -15,25 +20,70 @@ Cases == JsonDeserialize(IOEnv.TRACE_FILE)
 VARIABLES i, done
 vars == <<i, done>>
 
-ToLine(x) == Line(x.k, x.a, x.n, x.d)
+ToLine(x) == LineZ(x.k, x.a, x.n, x.d, x.z)
 EraseClass(evs) == [j \in 1..Len(evs) |-> IF evs[j].k = "error" THEN Ev("error", 0, "", 0) ELSE evs[j]]
 
+\* 0: different number of event groups; j > 0: first group that differs; -1: all equal
 FirstDiff(exp, got) ==
     IF Len(exp) # Len(got) THEN 0
     ELSE IF \E j \in 1..Len(exp) : EraseClass(exp[j]) # got[j]
          THEN CHOOSE j \in 1..Len(exp) : EraseClass(exp[j]) # got[j] /\ \A k \in 1..(j - 1) : EraseClass(exp[k]) = got[k]
          ELSE -1
 
+\* the group in which the implementation raised (the harness stops feeding lines there), 0 if it did not
+RaisedAt(got) ==
+    IF \E j \in 1..Len(got) : \E e \in 1..Len(got[j]) : got[j][e].k = "raised"
+    THEN CHOOSE j \in 1..Len(got) : \E e \in 1..Len(got[j]) : got[j][e].k = "raised"
+    ELSE 0
+
+\* the number the line at position j of s carries where the parser has to convert one (for the NoRaise report):
+\* can the implementation's integer type hold it, i.e. is it representable within 4300 digits?  At end of stream
+\* (j = Len(s) + 1) the numbers of the parser state are reported.
+Convertible(s, j) ==
+    IF j <= Len(s)
+    THEN LET ln == s[j]
+             st == Run(SubSeq(s, 1, j - 1))[1]
+             x == IF ln.k = "test" THEN (IF Given(ln) THEN ln.n ELSE st.last + 1) ELSE ln.a
+         IN ln.k \notin {"test", "plan", "version"} \/ Rep(4300, x, ln.z)
+    ELSE LET st == Run(s)[1] IN Rep(4300, st.highest, 0) /\ Rep(4300, Max(st.plan, 0), 0)
+
+BadVerdicts(exp, vs) == { j \in 1..Len(vs) : VerdictClass(Flatten(exp), vs[j].x) # vs[j].c }
+
+JudgeL(c, s, lim) ==
+    LET exp == RunAllL(lim, s)
+        d == FirstDiff(exp, c.ev)
+        r == RaisedAt(c.ev)
+        bv == BadVerdicts(exp, c.vs)
+    IN IF r > 0 THEN [id |-> c.id, clause |-> "NoRaise", line |-> r, x |-> 0,
+                      expected |-> IF r <= Len(exp) THEN exp[r] ELSE <<>>, got |-> c.ev[r],
+                      what |-> (IF r <= Len(s) THEN s[r].k ELSE "eof") \o "/"
+                               \o (IF Convertible(s, r) THEN "digits<=4300" ELSE "digits>4300")]
+       ELSE IF d = 0 THEN [id |-> c.id, clause |-> "EventGroupCount", line |-> 0, x |-> 0, expected |-> <<>>, got |-> <<>>, what |-> ""]
+       ELSE IF d > 0 THEN [id |-> c.id, clause |-> "EventsOfLine", line |-> d, x |-> 0, expected |-> exp[d], got |-> c.ev[d], what |-> ""]
+       ELSE IF \E j \in 1..Len(c.vs) : c.vs[j].c = "raised"
+            THEN LET j == CHOOSE j \in 1..Len(c.vs) : c.vs[j].c = "raised"
+                 IN [id |-> c.id, clause |-> "NoRaise", line |-> 0, x |-> c.vs[j].x, expected |-> <<>>,
+                     got |-> <<Ev("raised", 0, c.vs[j].r, 0)>>,
+                     what |-> "verdict/" \o (IF Convertible(s, Len(s) + 1) THEN "digits<=4300" ELSE "digits>4300")]
+       ELSE IF bv # {}
+            THEN LET j == CHOOSE j \in bv : \A k \in bv : j <= k
+                 IN [id |-> c.id, clause |-> "Verdict", line |-> 0, x |-> c.vs[j].x,
+                     expected |-> <<VerdictClass(Flatten(exp), c.vs[j].x)>>, got |-> <<c.vs[j].c>>,
+                     what |-> StreamClass(s)]
+       ELSE [id |-> c.id, clause |-> "ok", line |-> 0, x |-> 0, expected |-> <<>>, got |-> <<>>, what |-> ""]
+
+\* accepted under either reading of over-long numerals (streams without a numeral of 4300 digits or more read the
+\* same under both); the report is made against the exact reading, unless the implementation visibly follows the
+\* other one up to a later line
 Judge(c) ==
     LET s == [j \in 1..Len(c.s) |-> ToLine(c.s[j])]
-        exp == RunAll(s)
-        d == FirstDiff(exp, c.ev)
-    IN IF d = 0 THEN [id |-> c.id, clause |-> "EventGroupCount", line |-> 0, expected |-> <<>>, got |-> <<>>]
-       ELSE IF d > 0 THEN [id |-> c.id, clause |-> "EventsOfLine", line |-> d, expected |-> exp[d], got |-> c.ev[d]]
-       ELSE IF c.cls # "" /\ VerdictClass(Flatten(exp), c.exit) # c.cls
-            THEN [id |-> c.id, clause |-> "Verdict", line |-> 0,
-                  expected |-> <<VerdictClass(Flatten(exp), c.exit)>>, got |-> <<c.cls>>]
-       ELSE [id |-> c.id, clause |-> "ok", line |-> 0, expected |-> <<>>, got |-> <<>>]
+        v0 == JudgeL(c, s, 0)
+    IN IF v0.clause = "ok" \/ \A j \in 1..Len(s) : s[j].n < D4300 /\ s[j].a < D4300 /\ s[j].z <= 4300
+       THEN v0
+       ELSE LET v1 == JudgeL(c, s, 4300)
+            IN IF v1.clause = "ok" THEN v1
+               ELSE IF v0.clause = "EventsOfLine" /\ v1.clause = "EventsOfLine" /\ v1.line > v0.line THEN v1
+               ELSE v0
 
 Init == i \in 1..Len(Cases) /\ done = FALSE
 Next == /\ ~done
